@@ -1406,7 +1406,7 @@ macro "key_simp" : tactic =>
   `(tactic| simp [kCapHeight, kXHeight, kAscender, kDescender, kUnderlinePosition, kUnderlineThickness,
       kItalicAngle, kIsFixedPitch, kStartCharMetrics, kStartKernPairs, kEndCharMetrics, kEndKernPairs, kKPX,
       kFontName, kFullName, kVersion, kNotice, kFamilyName, kWeight, kFontBBox, kStartKernData, kEndKernData,
-      kEndFontMetrics, numField, parseFloat_fmt0, parseFloat_italicText, Res.bind])
+      kEndFontMetrics, numField, parseFloat_fmt0, parseFloat_italicText, Res.bind, isEndCharMetrics])
 
 theorem fmt0_tok (x : UInt64) : isTok (fmt0 x) = true := isTok_of_plain _ (fmt0_ne x) (fmt0_plain x)
 theorem italicText_tok (x : UInt64) : isTok (italicText x) = true :=
@@ -1560,7 +1560,7 @@ theorem readLine_StartCharMetrics (mm : Metrics) (n : Nat) :
 theorem readLine_EndCharMetrics (mm : Metrics) (c k : Bool) :
     readLine ⟨mm, c, k⟩ kEndCharMetrics = .ok ⟨mm, false, k⟩ := by
   unfold readLine
-  have : kEndCharMetrics.isPrefixOf kEndCharMetrics = true := by decide
+  have : isEndCharMetrics (fields kEndCharMetrics) = true := by decide
   rw [this]; rfl
 
 theorem readLine_StartKernData (mm : Metrics) :
@@ -2100,8 +2100,10 @@ theorem readLine_glyph (mm : Metrics) (k : Bool) (enc : List Bytes) (name : Byte
     readLine ⟨mm, true, k⟩ (glyphLine enc name g) =
       .ok ⟨{ mm with encoding := setEnc mm.encoding (charCode name enc 0) name,
                       glyphs := upsert name (roundG g) mm.glyphs }, true, k⟩ := by
-  have hp : kEndCharMetrics.isPrefixOf (glyphLine enc name g) = false := by
-    rw [glyphLine_eq]; simp [pC, kC, kEndCharMetrics, List.isPrefixOf]
+  have hp : isEndCharMetrics (fields (glyphLine enc name g)) = false := by
+    rw [glyphLine_eq, pC, List.append_assoc, List.cons_append, fields_tok_sp kC _ (by decide)]
+    show kEndCharMetrics.isPrefixOf kC = false
+    decide
   have hc : charCode name enc 0 ≤ 9223372036854775807 ∧ -9223372036854775808 ≤ charCode name enc 0 := by
     rcases charCode_bounds name enc 0 with h | h <;> omega
   unfold readLine
@@ -3466,10 +3468,9 @@ theorem charKVs_groups (kvs : List Bytes) : ∀ c : CharLine,
 /-- two lines with the same tokens are read alike: the reader is blind to the kind and amount of
 white space, to empty `;` groups and to a missing final `;` -/
 theorem readLine_tokens (st : St) (l1 l2 : Bytes)
-    (hp : kEndCharMetrics.isPrefixOf l1 = kEndCharMetrics.isPrefixOf l2)
     (hf : fields l1 = fields l2) (hg : groups l1 = groups l2) : readLine st l1 = readLine st l2 := by
   unfold readLine
-  rw [hp]
+  rw [hf]
   have h1 : charLine st l1 = charLine st l2 := by
     unfold charLine
     rw [charKVs_groups, charKVs_groups]
@@ -3484,8 +3485,7 @@ theorem readLine_tokens (st : St) (l1 l2 : Bytes)
 def SameTokens : List Bytes → List Bytes → Prop
   | [], [] => True
   | l1 :: r1, l2 :: r2 =>
-    (kEndCharMetrics.isPrefixOf l1 = kEndCharMetrics.isPrefixOf l2 ∧ fields l1 = fields l2 ∧
-      groups l1 = groups l2) ∧ SameTokens r1 r2
+    (fields l1 = fields l2 ∧ groups l1 = groups l2) ∧ SameTokens r1 r2
   | _, _ => False
 
 theorem readLines_tokens (ls1 : List Bytes) : ∀ (ls2 : List Bytes) (st : St), SameTokens ls1 ls2 →
@@ -3501,8 +3501,8 @@ theorem readLines_tokens (ls1 : List Bytes) : ∀ (ls2 : List Bytes) (st : St), 
     cases ls2 with
     | nil => exact absurd h (by simp [SameTokens])
     | cons l2 r2 =>
-      obtain ⟨⟨hp, hf, hg⟩, hr⟩ := h
-      rw [readLines, readLines, readLine_tokens st l1 l2 hp hf hg]
+      obtain ⟨⟨hf, hg⟩, hr⟩ := h
+      rw [readLines, readLines, readLine_tokens st l1 l2 hf hg]
       cases readLine st l2 with
       | ok s => simp only [Res.bind]; exact ih r2 s hr
       | error => rfl
@@ -3513,5 +3513,39 @@ theorem readCore_tokens (t1 t2 : Bytes) (h : SameTokens (scanLines t1) (scanLine
     readCore t1 = readCore t2 := by
   unfold readCore
   rw [readLines_tokens _ _ _ h]
+
+/-! ## part 9: leading white space -/
+
+/-- a text made of white-space runes only: ASCII white space and the UTF-8 encodings in `mbSpaces`
+(exactly the runes `strings.Fields` treats as separators) -/
+inductive WhiteSpace : Bytes → Prop
+  | nil : WhiteSpace []
+  | ascii (b : Nat) (ws : Bytes) : isAsciiSpace b = true → WhiteSpace ws → WhiteSpace (b :: ws)
+  | multi (p ws : Bytes) : p ∈ mbSpaces → WhiteSpace ws → WhiteSpace (p ++ ws)
+
+theorem fields_ascii (b : Nat) (l : Bytes) (h : isAsciiSpace b = true) : fields (b :: l) = fields l := by
+  unfold fields
+  rw [fieldsGo]
+  have : spaceLen (b :: l) = 1 := by simp [spaceLen, h]
+  rw [this]
+  simp [flush]
+
+theorem fields_multi (p : Bytes) (hp : p ∈ mbSpaces) (l : Bytes) : fields (p ++ l) = fields l := by
+  simp only [mbSpaces, List.mem_cons, List.not_mem_nil, or_false] at hp
+  rcases hp with rfl | rfl | rfl | rfl | rfl | rfl | rfl | rfl | rfl | rfl | rfl | rfl | rfl | rfl | rfl | rfl |
+    rfl | rfl | rfl <;>
+  simp [fields, fieldsGo, spaceLen, isAsciiSpace, mbLen, mbSpaces, List.isPrefixOf, flush]
+
+/-- leading white space is invisible to `strings.Fields` -/
+theorem fields_whiteSpace (ws l : Bytes) (h : WhiteSpace ws) : fields (ws ++ l) = fields l := by
+  induction h with
+  | nil => rfl
+  | ascii b ws hb _ ih => rw [List.cons_append, fields_ascii b _ hb, ih]
+  | multi p ws hp _ ih => rw [List.append_assoc, fields_multi p hp, ih]
+
+theorem whiteSpace_of_ascii (ws : Bytes) (h : ∀ b ∈ ws, isAsciiSpace b = true) : WhiteSpace ws := by
+  induction ws with
+  | nil => exact .nil
+  | cons b bs ih => exact .ascii b bs (h b (by simp)) (ih (fun c hc => h c (by simp [hc])))
 
 end PsVerif.Proofs.AFM
